@@ -23,14 +23,12 @@ EXPLANATION = ('Partial: the predicates\' structure (history push/pop pairing, s
 POS = 'engine::Position'
 
 
-def check(ctx):
-    p = ctx.prog()
+def check_history(ctx, p):
     do = p.fn(POS + '::do_move')
     undo = p.fn(POS + '::undo_move')
     dn = p.fn(POS + '::do_null_move')
     un = p.fn(POS + '::undo_null_move')
     from props.C03 import _once_every_path
-
     # ---- R1 history stack ---------------------------------------------------------------------------------
     def hist_ops(f):
         ops = []
@@ -71,6 +69,18 @@ def check(ctx):
     c_ops = hist_ops(ctor)
     ctx.ob('C07.R1.ctor', 'Position(fen)', len([1 for k, n in c_ops if k in ('push_back', 'store')]) == 1,
            'a fresh position starts with exactly its own key in the history', site=ctor.loc())
+
+
+
+def check(ctx):
+    p = ctx.prog()
+    do = p.fn(POS + '::do_move')
+    undo = p.fn(POS + '::undo_move')
+    dn = p.fn(POS + '::do_null_move')
+    un = p.fn(POS + '::undo_null_move')
+    from props.C03 import _once_every_path
+
+    check_history(ctx, p)
 
     # ---- R2 scan shape -------------------------------------------------------------------------------------
     shapes = {}
